@@ -1,9 +1,9 @@
 package zv
 
 import (
-	"sort"
 	"go/token"
 	"go/types"
+	"sort"
 	"strconv"
 	"strings"
 
